@@ -16,16 +16,18 @@ PLAN = dict(
         explanation="per case: (1) where the repository states an expected stdout, run_fun must reproduce it (validates the "
                     "reference semantics); (2) Rust compile_prog output = Gallina model output (canonical printing); (3) ALWAYS "
                     "the executable property on the RUST output: run_fun(checked program) vs run_core(Rust Core program) on "
-                    "every tuple whose source run ends normally within the fuel -> VIOL class=capture-under-binder (known finding) | "
+                    "every tuple whose source run ends normally within the fuel -> VIOL class="
                     "call-to-main (known finding: main has no return continuation, calls of main pass one) | "
-                    "mistyped-goto-unbound (repaired by 126604b; a recurrence is a violation) | semantic-mismatch; mismatches of programs outside the precondition "
+                    "mistyped-goto-unbound (repaired by 126604b; a recurrence is a violation) | capture-under-binder (repaired by <commitcap>: a continuation "
+                    "that mentions a name is kept outside of a let / pattern binder of that name; a recurrence is a violation) | semantic-mismatch; mismatches of programs outside the precondition "
                     "(effects in argument positions) are SKIPped.  Theorems: fresh names for fresh_name and for the whole "
-                    "translation (all term forms), structural lemmas, the capture and call-to-main witnesses refuting the unguarded and the "
-                    "Barendregt-guarded statements, and SEMANTIC PRESERVATION for all term forms incl. codata "
+                    "translation (all term forms), structural lemmas, the call-to-main witness refuting the unguarded and the "
+                    "Barendregt-guarded statements, the capture witness as a regression statement about the translation before the fix "
+                    "(and, now inside the guard, simulated by the theorem), and SEMANTIC PRESERVATION for all term forms incl. codata "
                     "(C02_fun2core_correct_fragment2: step-indexed forward simulation CEK vs Core machine; any number of definitions, calls, "
-                    "recursion, shared continuations, data/case, labels/goto, new/destructors/by-name bindings; guard: scope check + kind discipline + "
-                    "capture guard, implied by Barendregt; excluded: calls of main, destructor calls whose scrutinee and arguments both need evaluation); inputs inside "
-                    "the theorem's hypotheses carry the tag proved-fragment2 (others out-frag/out-kind/out-scope/out-nocap); outside them preservation rests on the correspondence + "
+                    "recursion, shared continuations, data/case, labels/goto, new/destructors/by-name bindings; guard: scope check + kind discipline, "
+                    "NO capture guard since fix <commitcap> - shadowing binders are allowed; excluded: calls of main, destructor calls whose scrutinee and arguments both need evaluation); inputs inside "
+                    "the theorem's hypotheses carry the tag proved-fragment2 (others out-frag/out-kind/out-scope); outside them preservation rests on the correspondence + "
                     "this executable check (see level_note)",
         assumptions=["the reference semantics Sem/FunSem.v and Sem/CoreSem.v are the intended meaning of Fun and Core "
                      "(validated against the repository's 11 expected outputs and native x86-64 runs of the corpus, not proved)",
